@@ -13,6 +13,11 @@ NA_FIXED = {
 }
 
 CLAIMS = {
+    'C16': dict(
+        technique="static ownership/effect analysis: lazy-init dependency graph acyclicity over the call graph, census of shared-mutable-state constructs (statics, field/local types, unsafe impls), absence of thread/lock calls, plus universally quantified Send/Sync type-level witnesses checked by rustc",
+        text="Decides the property from ownership: the only shared objects are the LazyLock tables, whose initialisation graph is a DAG free of blocking calls; no other static, field or local has interior mutability; no manual Send/Sync; for every engine type E rustc proves all codec/work/result types Send (E: Send) and Sync (E: Sync). No schedule is enumerated because no shared mutable state exists to race on.",
+        note="Trusted: std::sync::LazyLock, rustc auto traits and borrow checker. Bit-equality with sequential use follows from absence of sharing and is not separately executed.",
+        design="§4 C16"),
     'C17': dict(
         technique="static effect analysis over the resolved call graph (CHA over all in-crate engines): reachability of may-allocate callees from round / reset entry points, dominance of the grow guard, data-flow of the work object, field-type check of result types",
         text="Decides for every path: per-round entry points (all rates, wrappers, accessors, iterators, result Drop) reach no allocating callee; reset/new reach exactly Vec::resize on the shard store and FixedBitSet::grow behind `len < needed`; constructors and the rate switch keep the supplied working space; results borrow instead of copying. A counting allocator samples histories; this rule covers every call path.",
